@@ -527,6 +527,43 @@ def agg_rule(chk, db):
                 str(got).lower()), {"where": astx.loc(f)})
 
 
+def retarg_rule(chk, db):
+    """RETARG: a conversion member that returns an arithmetic type R and obtains its value from a helper template with one
+    explicit arithmetic type argument (`to_unsigned_type<unsigned long>()`) passes R itself: a narrower argument computes the
+    value in fewer bits and only then widens it."""
+    import re
+    arith = re.compile(r"^(unsigned|signed|int|long|short|char|unsigned (int|long|long long|short|char)|long long|"
+                       r"(etl::)?u?int(8|16|32|64)_t|(etl::)?size_t)$")
+    n = 0
+    for f in db.funcs:
+        if f.get("body") is None or not f["file"].startswith("_bitset/"):
+            continue
+        ret = (f.get("ret") or "").replace("const ", "").strip()
+        if not arith.match(ret):
+            continue
+        rets = [st for st in astx.walk_stmts(f["body"]) if st.get("k") == "return" and st.get("e") is not None]
+        for st in rets:
+            e = astx.strip_casts(st["e"])
+            if e is None or e.get("k") != "call":
+                continue
+            ta = (e["f"].get("targs") or "").strip()
+            if not ta or "," in ta or not arith.match(ta):
+                continue
+            n += 1
+            construct = "%s :: `%s`" % (astx.sig(f), astx.show(e, 50))
+            chk.instance("RETARG")
+
+            def canon(t):
+                t = t.replace("etl::", "").strip()
+                return {"unsigned": "unsigned int", "long": "long", "unsigned long": "unsigned long"}.get(t, t)
+            ok = canon(ta) == canon(ret)
+            chk.obligation("RETARG", construct, ok)
+            if not ok:
+                chk.violation("RETARG", construct, "narrower-helper-type", "%s: %s returns `%s` but computes its value with `%s`" % (
+                    astx.loc(f, st), f["n"], ret, ta), {"where": astx.loc(f)})
+    return n
+
+
 def proxy_rule(chk, db):
     """PROXY: assignment to the bit proxy writes the referenced bit. Both `reference::operator=(bool)` and
     `reference::operator=(reference const&)` are user-provided and every path through them stores into the referenced word
@@ -801,6 +838,7 @@ def run(chk, tier):
     proxy_rule(chk, db)
     bitprim_rule(chk, db)
     agg_rule(chk, db)
+    retarg_rule(chk, db)
     from ..rules import shift as _SH
     _SH.check(chk, db, ["_bit/", "_bitset/"], floor=20)      # SHIFT: shift counts stay below the promoted operand width
     strbit_rule(chk, db)
